@@ -62,7 +62,11 @@ func (_this *Decoder) Decode(reader io.Reader, eventReceiver events.DataEventRec
 	}()
 
 	buf := new(strings.Builder)
-	if _, err = io.Copy(buf, reader); err != nil {
+	// Hide any WriterTo the reader may have: io.Copy would hand the copy over
+	// to it, and bufio.Reader.WriteTo (the universal entry points wrap the
+	// source in a bufio.Reader) forgets a read error that arrived together
+	// with data as soon as a later read reports io.EOF.
+	if _, err = io.Copy(buf, struct{ io.Reader }{reader}); err != nil {
 		return
 	}
 
